@@ -19,7 +19,7 @@ AS_IS = {name: False for name in SWITCH_NAMES}
 ALL_OFF = {name: False for name in SWITCH_NAMES}
 
 CALL_INVARIANTS = ["PreGate", "PreBlock", "PostGate", "PostBlock", "ExcPass", "CaptureWindow", "OldIsCaptured",
-                   "MarksMatchFrames", "SkipExactly", "Bounded", "Rearmed", "VerdictIndependent"]
+                   "MarksMatchFrames", "SkipExactly", "Bounded", "Rearmed", "VerdictIndependent", "NoStuck"]
 
 
 def load_icontract() -> Any:
